@@ -432,7 +432,7 @@ def degenerate_utility_cases():
                         def go():
                             q, t = ulan.lanczos_tridiag(lambda v: A @ v, mi, dtype=torch.float64, device=torch.device("cpu"), matrix_shape=torch.Size((n, n)),
                                                         batch_shape=torch.Size(bs), init_vecs=init)
-                            tw = ar.t(t, "returned_t_mat", expand="none") if False else t
+                            tw = t            # handed to the caller by lanczos_tridiag: from now on the caller's tensor
                             snap = (tw._version, tw.clone())
                             ev = ulan.lanczos_tridiag_to_diag(tw)
                             if tw._version != snap[0] or not torch.equal(tw, snap[1]):
@@ -519,11 +519,11 @@ def degenerate_utility_cases():
                     A = ar.t(torch.diag_embed(_signed(rng, sign, n)), "A", expand="none")
                     rhs = ar.t(torch.zeros(n, 1, dtype=torch.float64) if var == "zero-rhs" else (_signed(rng, "mixed", n) if var == "vec" else _signed(rng, "mixed", n, 1)), "rhs",
                                expand="none")
-                    kw = {}
+                    kw = {"max_tridiag_iter": 1}
                     if var == "guess":
                         kw["initial_guess"] = ar.t(_signed(rng, "mixed", n, 1), "initial_guess", expand="none")
                     if var == "tridiag":
-                        kw.update(n_tridiag=1, max_tridiag_iter=1)
+                        kw.update(n_tridiag=1)
                     if var == "precond":
                         kw["preconditioner"] = lambda v: v
                     return lambda: (linear_cg(lambda v: A @ v, rhs, max_iter=3, **kw), minres(lambda v: A @ v, rhs, max_iter=3))
